@@ -1,2 +1,13 @@
-import Blackbird
-#print axioms Blackbird.dictGet
+import Blackbird.Props.C17
+#print axioms Blackbird.C17_solve_inverts
+#print axioms Blackbird.C17_affine_meaning
+#print axioms Blackbird.C17_symbol_argument_binds
+#print axioms Blackbird.C17_consistency
+#print axioms Blackbird.C17_equal_values_consistent
+#print axioms Blackbird.C17_two_parameters_refused
+#print axioms Blackbird.C17_not_a_template_rejected
+#print axioms Blackbird.C17_program_is_template_rejected
+#print axioms Blackbird.C17_version_mismatch_rejected
+#print axioms Blackbird.C17_target_mismatch_rejected
+#print axioms Blackbird.C17_node_count_mismatch_rejected
+#print axioms Blackbird.C17_missing_label_rejected
